@@ -19,7 +19,7 @@ from lingo_gen import S, sx
 
 PROP = "C03"
 LEAN_MODULES = ["DrxProps.C03", "DrxProps.C03b", "DrxProps.C03Link", "DrxProps.C03Link2"]
-FAMILIES = ["lspec"]
+FAMILIES = ["lspec", "lscr"]
 RULE = ("skeletons are enumerated exhaustively (see docstring) with unique markers in every simple statement, condition and bound; "
         "programs are compiled by the Lean scheme and the nesting tree read back from the real decompiler's text must equal the source "
         "tree. The structural classes of the open findings F23-F25, F126, F138 are predicted from the SOURCE tree (lingo_gen.c03_classes) and "
@@ -87,6 +87,11 @@ def build_cases(scripts, group=GROUP):
                 for li in range(len(ls)):
                     index.append([si, li // 3])
                 lines_c += ls; expect += ex
+            # correspondence of the MODEL of the decompiler (family lscr) on the same scripts: the text the real code emits must be
+            # the text the model emits, inside and outside the open failure classes (a behaviour change that hides behind an open
+            # finding still breaks this)
+            for _, unit, _ls, _ex in part:
+                lines_c.append(f"lscr lingo {unit['lscr'] or '-'} {unit['lnam'] or '-'}"); expect.append(None)
             cases.append(Case(kind=kind, spec=dict(scripts=[u[1] for u in part], index=index), lines=lines_c, expect=expect))
     return cases, rejected
 
@@ -456,6 +461,8 @@ def impl(case):
                 out += [r["handlers"][h][0], r["handlers"][h][1], str(raw)]
             else:
                 out += ["missing", "missing", str(raw)]
+    if len(case["lines"]) == len(out) + len(texts):        # corpus replays predate the model lines
+        out += [canon(t if t is not None else "error") for t in texts]
     return out
 
 
